@@ -148,12 +148,27 @@ def rule_MP4(rep, prog, g):
     rid = rep.rule("C07-MP4", "dispatch_group_wait returns 0 only when it observed count == 0 (acquire fence) or, in the slow path, a generation change "
                    "re-read with acquire after the kernel wait; it reports a timeout only for timeout == 0 or rc == ETIMEDOUT", floor=4)
     ET = g["ETIMEDOUT"]
-    fn = prog.fn("_dispatch_group_wait_slow")
+    # the blocking part is _dispatch_group_wait_slow, or - when that helper was merged into its caller - everything in dispatch_group_wait from the
+    # kernel wait on
+    slow = prog.fn("_dispatch_group_wait_slow", required=False)
+    merged = slow is None
+    fn = slow if slow is not None else prog.fn("dispatch_group_wait")
     rep.saw(fn)
-    rule_recheck_after_wait(rep, rid, prog, "_dispatch_group_wait_slow", "dg_gen", ("_dispatch_wait_on_address",))
+    rule_recheck_after_wait(rep, rid, prog, fn.name, "dg_gen", ("_dispatch_wait_on_address",))
     waits = calls_named(fn, "_dispatch_wait_on_address")
     loads = [i for i in fn.all_insts() if i.op == "load" and "dg_gen" in prog.fields(i)]
-    res = paths.walk(fn, entry_point(fn), lambda i: False)
+    if merged:
+        res = []
+        for w in waits:
+            pre = w.block.insts[w.block.insts.index(w) - 1] if w.block.insts.index(w) > 0 else None
+            class _S: pass
+            s0 = _S(); s0.block = w.block; s0.idx = w.block.insts.index(w) - 1; s0.loc = w.loc
+            res += paths.walk(fn, s0, lambda i: False)
+    else:
+        res = paths.walk(fn, entry_point(fn), lambda i: False)
+    waited = {tuple(w.ops[1][:2]) for w in waits}       # the generation the kernel wait was told to compare against
+    def is_slow_entry(i):
+        return i.op == "call" and (i.callee == "_dispatch_group_wait_slow" or (merged and i.callee == "_dispatch_wait_on_address"))
     seen0 = seent = 0
     for kind, inst, cx, path in res:
         if kind != "exit":
@@ -165,20 +180,20 @@ def rule_MP4(rep, prog, g):
             ok = False
             for iid, tv in cx.truth.items():
                 ii = fn.insts[iid]
-                if ii.op == "icmp" and ii.d["pred"] in ("ne", "eq") and any(fn.inst(o) in loads for o in ii.ops) and any(o[0] == "a" for o in ii.ops):
+                if ii.op == "icmp" and ii.d["pred"] in ("ne", "eq") and any(fn.inst(o) in loads for o in ii.ops) and any(tuple(o[:2]) in waited for o in ii.ops):
                     if tv == (ii.d["pred"] == "ne"):
                         ok = True
             rep.require(rid, ok, inst.loc, fn.name, "wait-slow-success-without-gen-change",
-                        "_dispatch_group_wait_slow returns 0 on a path where the re-read generation was not found different from the one waited on: "
-                        "the caller believes the group emptied although no leave-to-zero happened (path %s)" % path, sample={"returns": 0, "path": path})
+                        "%s returns 0 after blocking on a path where the re-read generation was not found different from the one waited on: "
+                        "the caller believes the group emptied although no leave-to-zero happened (path %s)" % (fn.name, path), sample={"returns": 0, "path": path})
         else:
             seent += 1
             ok = any(cx.consts.get(w.id) == ET for w in waits)
             rep.require(rid, ok, inst.loc, fn.name, "wait-slow-timeout-without-ETIMEDOUT",
-                        "_dispatch_group_wait_slow reports a timeout on a path where the kernel wait did not return ETIMEDOUT (e.g. EINTR): "
-                        "dispatch_group_wait returns non-zero before the full timeout elapsed (path %s)" % path, sample={"returns": "timeout", "path": path})
+                        "%s reports a timeout on a path where the kernel wait did not return ETIMEDOUT (e.g. EINTR): "
+                        "dispatch_group_wait returns non-zero before the full timeout elapsed (path %s)" % (fn.name, path), sample={"returns": "timeout", "path": path})
     if not seen0 or not seent:
-        rep.unknown(rid, "expected success and timeout returns in _dispatch_group_wait_slow (%d/%d)" % (seen0, seent))
+        rep.unknown(rid, "expected success and timeout returns after the kernel wait in %s (%d/%d)" % (fn.name, seen0, seent))
     # fast path
     fn = prog.fn("dispatch_group_wait")
     rep.saw(fn)
@@ -190,7 +205,7 @@ def rule_MP4(rep, prog, g):
             continue
         class _S: pass
         s = _S(); s.block = gu.to_block; s.idx = -1; s.loc = gu.site.loc
-        res = paths.walk(fn, s, lambda i: i.op == "call" and i.callee == "_dispatch_group_wait_slow")
+        res = paths.walk(fn, s, is_slow_entry)
         for kind, inst, cx, path in res:
             if kind != "exit":
                 continue
@@ -212,7 +227,7 @@ def rule_MP4(rep, prog, g):
                 continue
             class _S: pass
             s = _S(); s.block = t.to_block; s.idx = -1; s.loc = t.site.loc
-            if not any(k_ == "hit" for k_, *_ in paths.walk(fn, s, lambda i: i.op == "call" and i.callee == "_dispatch_group_wait_slow")):
+            if not any(k_ == "hit" for k_, *_ in paths.walk(fn, s, is_slow_entry)):
                 continue
             where = t.site.loc
         else:
@@ -226,7 +241,7 @@ def rule_MP4(rep, prog, g):
         rep.unknown(rid, "expected the HAS_WAITERS commit and the already-set give-up in dispatch_group_wait, found %d" % nslow)
     # the generation handed to the slow path is the generation of the state this call observed (on every way into the slow path)
     cxs = [i for i in fn.all_insts() if i.op == "cmpxchg" and (prog.fields(i) & GF)]
-    for c in calls_named(fn, "_dispatch_group_wait_slow"):
+    for c in (calls_named(fn, "_dispatch_wait_on_address") if merged else calls_named(fn, "_dispatch_group_wait_slow")):
         v = fn.inst(c.ops[1])
         while v is not None and v.op in ("trunc", "zext"):
             v = fn.inst(v.ops[0])
